@@ -10,7 +10,35 @@ import (
 	"govc"
 )
 
+func checkMain(args []string) {
+	fs := flag.NewFlagSet("check", flag.ExitOnError)
+	repo := fs.String("repo", "/repo", "repository directory")
+	verif := fs.String("verif", "/verif", "verification directory")
+	prop := fs.String("prop", "", "property id")
+	tier := fs.String("tier", "quick", "quick or thorough")
+	workers := fs.Int("j", 8, "parallel obligations")
+	only := fs.String("fn", "", "restrict to these functions (debugging)")
+	fs.Parse(args)
+	cfg := govc.CheckConfig{Repo: *repo, VerifDir: *verif, Property: *prop, Tier: *tier, Workers: *workers}
+	if s := os.Getenv("VERIF_SEED"); s != "" {
+		fmt.Sscan(s, &cfg.Seed)
+	}
+	if *only != "" {
+		cfg.OnlyFuncs = strings.Split(*only, ",")
+	}
+	if *tier == "thorough" {
+		cfg.Timeout, cfg.Retry = 60*time.Second, 180*time.Second
+	} else {
+		cfg.Timeout, cfg.Retry = 20*time.Second, 90*time.Second
+	}
+	os.Exit(govc.RunCheck(cfg))
+}
+
 func main() {
+	if len(os.Args) > 1 && os.Args[1] == "check" {
+		checkMain(os.Args[2:])
+		return
+	}
 	dir := flag.String("repo", "/repo", "repository directory")
 	spec := flag.String("spec", "", "contract file (default <repo>/contracts_verif.go)")
 	fnFlag := flag.String("fn", "", "comma-separated function names to verify (default: all under contract)")
@@ -87,6 +115,7 @@ func main() {
 		}
 	}
 	if bad > 0 {
+		govc.Cleanup()
 		os.Exit(1)
 	}
 }
